@@ -38,15 +38,24 @@ EPS = 2.3e-16
 # helpers
 # ------------------------------------------------------------------------------------------------------------------------
 
+_HV = {'xi': [], 'dt': [], 'ratio': []}      # source hints (filled by run()): values at / around the new float constants of the anchored files; empty on the unchanged tree
+
+
 def pick_xi(rng):
+    if _HV['xi'] and rng.random() < 0.15:
+        return rng.choice(_HV['xi'])
     return rng.choice(XIS) if rng.random() < 0.7 else rng.uniform(0, 0.999)
 
 
 def pick_dt(rng):
+    if _HV['dt'] and rng.random() < 0.15:
+        return rng.choice(_HV['dt'])
     return 10 ** rng.uniform(-3, 0) if rng.random() < 0.5 else rng.choice([0.01, 0.005, 0.02, 0.1, 0.001])
 
 
 def pick_ratio(rng, hi=2e4):
+    if _HV['ratio'] and rng.random() < 0.2 and any(r <= hi for r in _HV['ratio']):
+        return rng.choice([r for r in _HV['ratio'] if r <= hi])
     if rng.random() < 0.7:
         return math.exp(rng.uniform(math.log(0.2), math.log(hi)))
     return rng.choice([r for r in (0.2, 1, 5.9, 6, 20, 2e4) if r <= hi])
@@ -685,6 +694,8 @@ def corpus(ctx, im):
 def run(ctx):
     im = Impl(ctx)
     quick = ctx.tier == 'quick'
+    _HV.update(xi=gen.hint_values(ctx, 0.0, 0.999, cap=10), dt=gen.hint_values(ctx, 1e-3, 1.0, cap=10, maps=(lambda c: c, lambda c: 1 / c)),
+               ratio=gen.hint_values(ctx, 0.2, 2e4, cap=30, maps=(lambda c: c, lambda c: 6.2831853 / c, lambda c: 1 / c)))     # T/dt, or w*dt = 2 pi dt/T, at the constant
     corpus(ctx, im)
     ctx.flush()
     exhaustive(ctx, im)
@@ -706,6 +717,8 @@ def extras(ctx, im):
     rng = ctx.rng
     sdof = im.sdof
     jobs = [(400, 3000), (130, 17000)] if ctx.tier == 'quick' else [(400, 3000), (130, 17000), (1100, 2000), (40, 60000), (300, 7100)]
+    # source hints: record lengths around every new integer constant; period counts that put the number of period x sample cells just above it
+    jobs = jobs + [(8, m) for m in gen.hint_sizes(ctx, lo=3001, hi=100000, cap=3)] + [(c // 3000 + 1, 3000) for c in gen.hint_sizes(ctx, lo=2 ** 17, hi=6000000, cap=2)]
     for npd, n in jobs:
         dt = rng.choice([0.01, 0.005])
         a = gen.noise_record(rng, n) * np.exp(-((np.arange(n) - n / 3) / (n / 5)) ** 2)
@@ -817,7 +830,7 @@ def extras2(ctx, im):
     rng = ctx.rng
     sdof = im.sdof
     quick = ctx.tier == 'quick'
-    for n in ([12000] if quick else [12000, 6000, 30000, 60000, 5001]):
+    for n in ([12000] if quick else [12000, 6000, 30000, 60000, 5001]) + gen.hint_sizes(ctx, lo=5002, hi=100000, cap=3):
         dt = rng.choice([0.01, 0.005, 0.02])
         env = np.exp(-((np.arange(n) - n / 3) / (n / 5)) ** 2)
         a = gen.noise_record(rng, n) * env
